@@ -28,17 +28,18 @@ structure State where
 
 /-- `_reset` (DPPEnv; MDPPEnv: `logical_and(action_mask, ~probe)`) -/
 def reset (i : Inst) : State :=
-  { am := fun j => if i.multi then (i.avail j && !(i.probe j)) else i.avail j
+  { am := fun j => if i.multi then (i.avail j && (if Params.mdppResetProbeNegated then !(i.probe j) else i.probe j))
+      else i.avail j
     i := 0
     done := false
-    keepout := fun j => !(i.avail j) }
+    keepout := fun j => if Params.dppKeepoutNegated then !(i.avail j) else i.avail j }
 
 def mask (_ : Inst) (s : State) (a : Nat) : Bool := s.am a
 
 /-- `_step`: `available = action_mask.scatter(-1, a, 0)`; `done = i >= max_decaps - 1` -/
 def step (i : Inst) (s : State) (a : Nat) : State :=
-  { am := upd s.am a false
-    done := Params.dppDoneCmp.eval s.i (i.quota - 1)
+  { am := upd s.am a Params.dppScatterValue
+    done := Params.dppDoneCmp.eval s.i (i.quota - Params.dppDoneOffset)
     i := s.i + 1
     keepout := s.keepout }
 
